@@ -453,17 +453,6 @@ class Compiler(object):
                 if resolved_member['type'] == 'OCTET STRING':
                     self.pre_process_default_value_octet_string(member)
 
-                if resolved_member['type'] == 'ENUMERATED' and self._numeric_enums:
-                    for enum_value in resolved_member['values']:
-                        if enum_value == EXTENSION_MARKER:
-                            continue
-
-                        key, value = enum_value
-
-                        if key == member['default']:
-                            member['default'] = value
-                            break
-
     def pre_process_default_value_bit_string(self, member, resolved_member):
         default = member['default']
 
@@ -901,7 +890,8 @@ class Compiler(object):
 
         if 'default' in member:
             compiled_member = self.copy(compiled_member)
-            compiled_member.set_default(member['default'])
+            compiled_member.set_default(self.get_default_value(member,
+                                                               module_name))
 
         if 'size' in member:
             compiled_member = self.copy(compiled_member)
@@ -909,6 +899,32 @@ class Compiler(object):
                                                                 module_name))
 
         return compiled_member
+
+    def get_default_value(self, member, module_name):
+        """Returns the default value of given member. The specification
+        dictionary is shared by all compilations of it and always holds
+        the enumeration name; the number is looked up here when numeric
+        enums are selected.
+
+        """
+
+        default = member['default']
+
+        if self._numeric_enums:
+            resolved_member = self.resolve_type_descriptor(member,
+                                                           module_name)
+
+            if resolved_member['type'] == 'ENUMERATED':
+                for enum_value in resolved_member['values']:
+                    if enum_value == EXTENSION_MARKER:
+                        continue
+
+                    key, value = enum_value
+
+                    if key == default:
+                        return value
+
+        return default
 
     def get_size_range(self, type_descriptor, module_name):
         """Returns a tuple of the minimum and maximum values allowed according
